@@ -2,6 +2,7 @@ import FractopoModel.Generated.GridSampling
 import FractopoModel.Generated.GridLoops
 import FractopoModel.Model.Grid
 import FractopoModel.Generated.Grid
+import FractopoModel.Generated.SampleCell
 /-!
 # C18 — contour grid: cover, equal disjoint cells, deterministic order, schedule-independence
 -/
@@ -302,5 +303,59 @@ theorem C18_generated_grid_sampling {L Gr R : Type} (empty_result : R) (is_frame
       cases h : (isclose0 w || decide (w < 0))
       · by_cases hb : branches.length > 0 <;> simp [h, hb]
       · simp [h]
+
+/-! ### one grid cell (regenerated `populate_sample_cell`) -/
+
+section SampleCell
+open Gen
+variable {Cell Pt0 C S G P K R : Type}
+
+/-- what one sample circle contains, as the regenerated `populate_sample_cell` computes it (no per-cell extraction) -/
+def sampleSpec (area_of : C → Rat) (tindex bindex : List G → S) (nindex : List (P × String) → S) (window : S → C → List Nat)
+    (meets : G → C → Bool) (pmeets : P → C → Bool) (crop : List G → C → List G) (len : G → Rat) (count_nodes : List String → K)
+    (topo : List Rat → K → Rat → List Rat → Bool → Bool → R) (circle : C) (traces : List G) (nodes : List (P × String)) (branches : List G) : R :=
+  let pick : {α : Type} → S → List α → List α := fun i l => (window i circle).filterMap fun k => l[k]?
+  let inside : List G → List G := fun cands => if cands.any (fun g => meets g circle) then crop cands circle else []
+  let tc := pick (tindex traces) traces
+  if tc.length = 0 then topo [] (count_nodes []) (area_of circle) [] true false
+  else if branches.length > 0 then
+    let sn := if nodes.any (fun n => pmeets n.1 circle) then (pick (nindex nodes) nodes).filter (fun n => pmeets n.1 circle) else []
+    topo ((inside tc).map len) (count_nodes (sn.map (·.2))) (area_of circle) ((inside (pick (bindex branches) branches)).map len) true false
+  else topo ((inside tc).map len) (count_nodes []) (area_of circle) [] false false
+
+/-- **What a grid cell reports.** The regenerated `populate_sample_cell` (nested helpers included; no per-cell extraction) returns the parameter function applied to: the
+lengths of the trace candidates cropped to the cell's sample circle (nothing when no candidate meets it), the classes of the node candidates inside the circle, the circle's
+area, the lengths of the branch candidates cropped to the circle -- or, when the index window of the circle holds no trace at all, the parameters of the empty sample with
+the circle's area. The circle comes from the cell's centroid and the cell area only (radius factor: `Gen.sample_radius`-items of Grid). -/
+theorem C18_generated_sample_cell (centroid_of : Cell → Pt0) (is_point : Pt0 → Bool) (circle_of : Pt0 → Rat → C) (area_of : C → Rat) (tindex bindex : List G → S)
+    (nindex : List (P × String) → S) (window : S → C → List Nat) (meets : G → C → Bool) (pmeets : P → C → Bool) (crop : List G → C → List G) (len : G → Rat)
+    (count_nodes : List String → K) (topo : List Rat → K → Rat → List Rat → Bool → Bool → R) (ban : List G → C → Except String (List G × List (P × String)))
+    (cell : Cell) (cell_area : Rat) (traces : List G) (nodes : List (P × String)) (branches : List G) (hp : is_point (centroid_of cell) = true) :
+    populate_sample_cell centroid_of is_point circle_of area_of tindex bindex nindex window meets pmeets crop len count_nodes topo ban cell cell_area traces nodes branches false =
+      .ok (sampleSpec area_of tindex bindex nindex window meets pmeets crop len count_nodes topo (circle_of (centroid_of cell) cell_area) traces nodes branches) := by
+  unfold populate_sample_cell sampleSpec sc_choose_geometries sc_resolve_samples
+  simp only [hp, Bool.not_true, Bool.false_eq_true, if_false]
+  by_cases h0 : ((window (tindex traces) (circle_of (centroid_of cell) cell_area)).filterMap fun k => traces[k]?).length = 0
+  · simp [h0]
+  · by_cases hb : branches.length > 0
+    · simp [h0, hb]
+    · simp [h0, hb]
+
+/-- a cell whose centroid is not a point is refused -/
+theorem C18_sample_cell_type_error (centroid_of : Cell → Pt0) (is_point : Pt0 → Bool) (circle_of : Pt0 → Rat → C) (area_of : C → Rat) (tindex bindex : List G → S)
+    (nindex : List (P × String) → S) (window : S → C → List Nat) (meets : G → C → Bool) (pmeets : P → C → Bool) (crop : List G → C → List G) (len : G → Rat)
+    (count_nodes : List String → K) (topo : List Rat → K → Rat → List Rat → Bool → Bool → R) (ban : List G → C → Except String (List G × List (P × String)))
+    (cell : Cell) (cell_area : Rat) (traces : List G) (nodes : List (P × String)) (branches : List G) (r : Bool) (hp : is_point (centroid_of cell) = false) :
+    populate_sample_cell centroid_of is_point circle_of area_of tindex bindex nindex window meets pmeets crop len count_nodes topo ban cell cell_area traces nodes branches r =
+      .error "TypeError" := by
+  unfold populate_sample_cell
+  simp [hp]
+
+/-- non-vacuity: geometries are numbers (length = the number, inside the circle iff < 10), the window reports everything: the cell reports the total length inside -/
+example : populate_sample_cell (fun (_ : Unit) => ()) (fun _ => true) (fun _ _ => ()) (fun _ => 4) (fun _ => ()) (fun _ => ()) (fun _ => ()) (fun _ _ => [0, 1, 2])
+    (fun (g : Nat) _ => g < 10) (fun (p : Nat) _ => p < 10) (fun l _ => l.filter (· < 10)) (fun g => (g : Rat)) (fun cls => cls.length)
+    (fun tl k a _ _ _ => (tl.sum / a, k)) (fun _ _ => .error "x") () 1 [3, 50, 5] [(1, "X"), (70, "Y")] [3] false = .ok (2, 1) := by decide +kernel
+
+end SampleCell
 
 end C18
